@@ -205,9 +205,9 @@ def run(chk, w):
         for b in f.blocks:
             t = b.term
             if t.op == "br" and "cond" in t.d and f.dominates(t, i):
-                c = f.resolve(t["cond"])
+                c = f.resolve(rules.resolve_local(f, rules.strip_casts(f, t["cond"])))     # also `const bool full = len == N; if (full)`
                 if c is not None and c.op == "icmp":
-                    call = f.resolve(rules.strip_casts(f, c["a"]))
+                    call = f.resolve(rules.resolve_local(f, rules.strip_casts(f, c["a"])))
                     cv = rules.const_of(f, c["b"])
                     if call is not None and call.op == "call" and call.callee == "g_queue_get_length" and cv is not None:
                         const = cv
